@@ -512,7 +512,19 @@ def j_timeout(v, script, nat):
             return True, 'still unanswered %d ms after the wait began (MPP timeout %d ms)' % (total, mpp_ms)
     return False, 'timeout behaviour as expected natively'
 
+def j_unpayable(v, script, nat):
+    probes = [r for r in nat.get('responses', []) if r['k'] >= 1]
+    if any(r['response'].get('result') == 'resolve' for r in probes):
+        return False, 'a retry was settled natively'
+    want = len([s for s in script['steps'] if s.get('op') == 'htlc' and s['k'] >= 1])
+    if want and len(probes) >= want:
+        recs = [d for d in nat.get('datastore', []) if d['key'][-1] == 'state']
+        return True, 'all %d retries failed natively (%s); state record left as %s' % (
+            want, [r['response'].get('failure_message') for r in probes], [d['string'][:40] for d in recs])
+    return False, 'retries not all answered natively: %s, waiting %s' % (probes, nat.get('still_waiting'))
+
 JUDGES = {
+    'permanently-unpayable': j_unpayable,
     'blocking-send-under-lock': j_lock,
     'rpc-under-payments-lock': j_lock,
     'timer-under-payments-lock': j_lock,
